@@ -113,7 +113,27 @@ def takes_bool(x: bool) -> None: ...
 def takes_obj(x: object) -> None: ...
 def takes_bytes(x: bytes) -> None: ...
 def takes_str(x: str) -> None: ...
+from typing import AnyStr, Dict
+WF = TypeVar("WF", float, int)
+NF = TypeVar("NF", int, float)
+def apply_none(x: T, cb: Callable[[T], None]) -> None: ...
+def apply_none2(cb: Callable[[T], None], x: T) -> int:
+    return 0
+def same_none(a: AnyStr, b: AnyStr) -> None: ...
+def wide_first(x: WF, cb: Callable[[WF], None]) -> WF:
+    return x
+def narrow_first(x: NF, cb: Callable[[NF], None]) -> NF:
+    return x
 def use() -> None:
+    reveal_type(apply_none("a", takes_int))
+    reveal_type(apply_none2(takes_int, "a"))
+    reveal_type(same_none("a", b"b"))
+    reveal_type(apply_none(1, takes_int))
+    reveal_type(wide_first(True, takes_bool))
+    reveal_type(narrow_first(True, takes_bool))
+    reveal_type(wide_first(1, takes_int))
+    reveal_type(narrow_first(1, takes_int))
+    reveal_type(wide_first(1.5, takes_int))
     reveal_type(fb(takes_int))
     reveal_type(fb(takes_obj))
     reveal_type(fb(takes_bool))
@@ -139,8 +159,16 @@ def use() -> None:
         elif f["code"].name in ("incompatible_argument", "incompatible_call"):
             diagnosed.add(f["lineno"])
     allowed = {"fb(": {"bool", "Literal[True]", "Literal[False]"}, "fbx(": {"bool", "Literal[True]", "Literal[False]"},
-               "fc(": {"int", "str"}, "fcx(": {"int", "str"}}
-    must_reject = ["fb(takes_bytes)", "fc(takes_bytes)", "fbx(1)", 'fcx(b"")', "two(1, takes_str)"]
+               "fc(": {"int", "str"}, "fcx(": {"int", "str"}, "wide_first(": {"int", "float"}, "narrow_first(": {"int", "float"}}
+    must_reject = ["fb(takes_bytes)", "fc(takes_bytes)", "fbx(1)", 'fcx(b"")', "two(1, takes_str)",
+                   # no solution although the return annotation carries no type variable; constraint order must not matter
+                   'apply_none("a", takes_int)', 'apply_none2(takes_int, "a")', 'same_none("a", b"b")', "wide_first(True, takes_bool)", "narrow_first(True, takes_bool)",
+                   "wide_first(1.5, takes_int)"]
+    must_accept = ["apply_none(1, takes_int)", "wide_first(1, takes_int)", "narrow_first(1, takes_int)"]
+    for m in must_accept:
+        ln = next(i + 1 for i, l in enumerate(lines) if m in l)
+        if ln in diagnosed:
+            return f"`{m}` has a solution within the declared bound/constraints but is diagnosed"
     for ln, text in revealed.items():
         src = lines[ln - 1].strip()
         if ln in diagnosed:
